@@ -159,7 +159,7 @@ def liesel_scenario(chk, kind):
 
 LEMMAS = {"C05": "Metropolis-Hastings acceptance rule (RW / IWLS / MH kernels accept with exactly min(1, ratio))",
           "C06": "proposal densities and corrections of RW / IWLS / MH give the Metropolis-Hastings ratio (detailed balance)",
-          "C13": "Gibbs kernels draw from the full conditional", "C09": "a kernel sequence is the composition of its kernels on a coherent state"}
+          "C13": "Gibbs kernels draw from the full conditional", "C11": "tuning parameters are held fixed in burn-in and posterior epochs", "C09": "a kernel sequence is the composition of its kernels on a coherent state"}
 
 
 def run_lemma(pid, only=None):
@@ -200,7 +200,7 @@ def lemmas(chk):
     if only.startswith("lemma:"):
         _, pid, sel = only.split(":", 2)
         todo = [pid]
-    with ThreadPoolExecutor(4) as ex:
+    with ThreadPoolExecutor(5) as ex:
         res = list(ex.map(lambda pid: run_lemma(pid, sel), todo))
     rows = []
     for pid, (rc, viol, summary, tail) in zip(todo, res):
@@ -274,5 +274,5 @@ def main():
                                   "targets the conditional of the same joint) + the composition theorem.")
     chk.assume("blackjax hmc/nuts kernels leave their logdensity_fn invariant (trusted); init_state / find_reasonable_step_size (data-dependent while loops) outside",
                "real arithmetic", "detailed balance => invariance and composition of invariant kernels are theorems, not checked",
-               "the quick tiers of C05, C06, C13 and C09 are run as part of this check (sub-processes on the same tree): a failing lemma is reported as a violation of C04 with the lemma's replay")
+               "the quick tiers of C05, C06, C13, C11 and C09 are run as part of this check (sub-processes on the same tree): a failing lemma is reported as a violation of C04 with the lemma's replay")
     return chk.finish(technique=TECH)
